@@ -1157,3 +1157,59 @@ Proof.
       apply (wi_f2 _ _ _ I i w Hn Hb). apply Done. apply nth_error_Some. congruence. }
     rewrite F. exact Logic.I.
 Qed.
+
+(** * Which failure a parallel [try_for_each] / [collect] reports
+    A failure is any non-Ok outcome of a task (an [Err] value, or a panic: a failure code like any
+    other here).  With several failing tasks the parallel construct reports the failure of SOME
+    failing task — which one depends on the schedule; when all failing tasks fail alike (in
+    particular when only one fails) the report is the same for every schedule and equals the
+    sequential one.  This is what the comparison of the two builds may and may not demand. *)
+Lemma write_all_err_in : forall ws t e, write_all ws t = inl e -> exists p, In (p, inl e) ws.
+Proof.
+  induction ws as [|[p [e'|b]] r IH]; intros t e H; cbn [write_all] in H; [discriminate| |].
+  - inversion H; subst. exists p. left. reflexivity.
+  - destruct (IH _ _ H) as [q Hq]. exists q. right. exact Hq.
+Qed.
+Lemma par_save_err_in : forall sched tree (ws : list stask) e,
+  par_save sched tree ws = inl e -> exists p, In (p, inl e) ws.
+Proof.
+  intros sched tree ws e H. unfold par_save in H. apply write_all_err_in in H. destruct H as [p Hin].
+  apply in_map_iff in Hin. destruct Hin as [i [Hi Hd]].
+  pose proof (run_done_perm sched [] (map (fun _ : stask => []) ws)) as HP. rewrite map_length in HP.
+  apply (Permutation_in _ HP) in Hd. apply in_seq in Hd.
+  exists p. rewrite <- Hi. apply nth_In. lia.
+Qed.
+Lemma seq_save_err_in : forall tree (ws : list stask) e, seq_save tree ws = inl e -> exists p, In (p, inl e) ws.
+Proof. intros tree ws e H. exact (write_all_err_in ws tree e H). Qed.
+
+Theorem par_save_failure_uniform : forall sched tree (ws : list stask) e0,
+  (forall p e, In (p, inl e) ws -> e = e0) -> forallb stask_ok ws = false ->
+  par_save sched tree ws = inl e0 /\ seq_save tree ws = inl e0.
+Proof.
+  intros sched tree ws e0 Hu Hb. split.
+  - destruct (par_save sched tree ws) as [e|t] eqn:E.
+    + destruct (par_save_err_in _ _ _ _ E) as [p Hin]. rewrite (Hu p e Hin). reflexivity.
+    + assert (forallb stask_ok ws = true) by (apply (par_save_ok_iff sched tree ws); eauto). congruence.
+  - destruct (seq_save tree ws) as [e|t] eqn:E.
+    + destruct (seq_save_err_in _ _ _ E) as [p Hin]. rewrite (Hu p e Hin). reflexivity.
+    + pose proof (seq_save_spec tree ws) as S. rewrite E in S. cbn [ok_tree] in S.
+      unfold spec_save in S. rewrite collectC_spec, stask_all_some, Hb in S. discriminate.
+Qed.
+
+(** the same for loading: the error of a failed parallel glyph load is the error of some failing task *)
+Lemma collect_err_in : forall rs acc e, collect rs acc = inl e -> In (inl e) rs.
+Proof.
+  induction rs as [|[e'|[k g]] r IH]; intros acc e H; cbn [collect] in H; [discriminate| |].
+  - inversion H; subst. left. reflexivity.
+  - right. eapply IH; eauto.
+Qed.
+Lemma par_glyphs_err_in : forall sched s ts e,
+  snd (par_glyphs sched s ts) = inl e -> exists t, In t ts /\ t_out t = TErr e.
+Proof.
+  intros sched s ts e H. unfold par_glyphs in H. cbn [snd] in H. apply collect_err_in in H.
+  unfold results_of in H. apply in_map_iff in H. destruct H as [i [Hr Hd]].
+  pose proof (run_done_perm sched s (map prog_of ts)) as HP. rewrite map_length in HP.
+  apply (Permutation_in _ HP) in Hd. apply in_seq in Hd.
+  exists (nth i ts dflt_task). split; [apply nth_In; lia|].
+  unfold task_result in Hr. fold dflt_task in Hr. destruct (t_out (nth i ts dflt_task)); [discriminate|congruence].
+Qed.
